@@ -15,14 +15,6 @@ def showNode (n : Node) : String :=
 
 def showBal (b : Bal) : String := joinS [untok b.account, toString b.deposit, toString b.credit]
 
-def findArg (key : String) (args : List String) : Option (List String) :=
-  args.findSome? (listArg? key)
-
-def findInt (key : String) (args : List String) : Option Int :=
-  match findArg key args with
-  | some [v] => int? v
-  | _ => none
-
 def storeStep (s : Store) (args : List String) : Store × String :=
   match args with
   | ["setnode", id, ls, ih, kind, uri, payout, blk] =>
